@@ -2,6 +2,7 @@ use std::collections::HashMap;
 use std::path::PathBuf;
 
 use crate::command::types::{CompareOp, Expr, PickedZones};
+use crate::engine::core::PublishedUids;
 use crate::engine::core::read::cache::GlobalIndexCatalogCache;
 use crate::engine::core::read::catalog::IndexKind;
 use crate::engine::core::read::query_plan::QueryPlan;
@@ -229,7 +230,12 @@ fn load_rlte_for_shard(
     HashMap<u32, Vec<String>>, /*ladders*/
 )> {
     let mut out = Vec::new();
+    let published_uids = PublishedUids::for_shard(base_dir);
     for seg in segment_ids {
+        // The uid may have been compacted out of a segment that is still published
+        if !published_uids.serves(seg, uid) {
+            continue;
+        }
         // Check catalog whether RLTE is present for this segment/uid
         if let Ok((catalog, _)) =
             GlobalIndexCatalogCache::instance().get_or_load(base_dir, seg, uid)
